@@ -1,4 +1,486 @@
 /- Proofs/Parallel.lean — helper lemmas for Properties/C08.lean and C19.lean -/
 import Model.Parallel
 namespace Sketchnu
+variable {I K S : Type}
+
+/-! ### single steps -/
+
+theorem PStep.measure_lt {cap : Nat} {s t : PState I} (h : PStep cap s t) : t.measure < s.measure := by
+  cases h <;> simp_all [PState.measure] <;> omega
+
+theorem PStep.done_stays {cap : Nat} {s t : PState I} (h : PStep cap s t) (w : Nat) (ws : WState I)
+    (hw : s.workers[w]? = some ws) (hd : ws.done = true) : t.workers[w]? = some ws := by
+  cases h with
+  | putItem x rest h1 h2 => exact hw
+  | putPill p h1 h2 h3 => exact hw
+  | takeItem w' x q ws' h1 h2 h3 =>
+    have hne : w' ≠ w := by
+      intro e; subst e; rw [hw] at h2; cases h2; simp [hd] at h3
+    simpa [List.getElem?_set_ne hne] using hw
+  | takePill w' q ws' h1 h2 h3 =>
+    have hne : w' ≠ w := by
+      intro e; subst e; rw [hw] at h2; cases h2; simp [hd] at h3
+    simpa [List.getElem?_set_ne hne] using hw
+
+/-! ### the exit-code monitor -/
+
+theorem monitor_closed_stays (l : List (List (Option Int))) (r : Bool) :
+    monitor l true = some r → r = true := by
+  induction l with
+  | nil => simp [monitor]
+  | cons c rest ih =>
+    simp only [monitor, Bool.true_or]
+    split
+    · exact ih
+    · intro h; simpa using h.symm
+
+theorem monitor_cons_running (codes : List (Option Int)) (rest : List (List (Option Int))) (closed : Bool)
+    (h : pollAnyNone codes = true) : monitor (codes :: rest) closed = monitor rest (closed || pollClosed codes) := by
+  simp [monitor, h]
+
+theorem monitor_cons_ended (codes : List (Option Int)) (rest : List (List (Option Int))) (closed : Bool)
+    (h : pollAnyNone codes = false) : monitor (codes :: rest) closed = some (closed || pollClosed codes) := by
+  simp [monitor, h]
+
+theorem monitor_dead (pre : List (List (Option Int))) (codes : List (Option Int)) (rest : List (List (Option Int)))
+    (closed r : Bool) (h : monitor (pre ++ codes :: rest) closed = some r)
+    (hpre : ∀ c ∈ pre, pollAnyNone c = true) (hbad : pollClosed codes = true) : r = true := by
+  induction pre generalizing closed with
+  | nil =>
+    simp only [List.nil_append, monitor, hbad, Bool.or_true] at h
+    split at h
+    · exact monitor_closed_stays _ _ h
+    · simpa using h.symm
+  | cons c pre ih =>
+    rw [List.cons_append, monitor_cons_running _ _ _ (hpre c (by simp))] at h
+    exact ih _ h (fun c' hc' => hpre c' (by simp [hc']))
+
+theorem monitor_clean (snaps : List (List (Option Int))) (r : Bool) (h : monitor snaps false = some r)
+    (hclean : ∀ codes ∈ snaps, pollClosed codes = false) : r = false := by
+  induction snaps with
+  | nil => simp [monitor] at h
+  | cons c rest ih =>
+    have hc : pollClosed c = false := hclean c (by simp)
+    simp only [monitor, hc, Bool.or_false] at h
+    split at h
+    · exact ih h (fun c' hc' => hclean c' (by simp [hc']))
+    · simpa using h.symm
+
+/-! ### merge rounds -/
+
+theorem mergeRound_length (merge : S → S → S) : ∀ l : List S, (mergeRound merge l).length = (l.length + 1) / 2
+  | [] => by simp [mergeRound]
+  | [_] => by simp [mergeRound]
+  | a :: b :: rest => by
+    simp only [mergeRound, List.length_cons, mergeRound_length merge rest]; omega
+
+theorem mergeRounds_length (merge : S → S → S) (fuel : Nat) (l : List S)
+    (h0 : 0 < l.length) (hf : l.length ≤ fuel + 1) : (mergeRounds merge fuel l).length = 1 := by
+  induction fuel generalizing l with
+  | zero => simp only [mergeRounds]; omega
+  | succ fuel ih =>
+    simp only [mergeRounds]
+    split
+    · omega
+    · apply ih
+      · rw [mergeRound_length]; omega
+      · rw [mergeRound_length]; omega
+
+theorem mergeRound_map_eval (merge : S → S → S) : ∀ ts : List (MTree S),
+    mergeRound merge (ts.map (MTree.eval merge)) = (mergeRound MTree.node ts).map (MTree.eval merge)
+  | [] => by simp [mergeRound]
+  | [_] => by simp [mergeRound]
+  | a :: b :: rest => by
+    simp only [mergeRound, List.map_cons, MTree.eval, mergeRound_map_eval merge rest]
+
+theorem mergeRound_leaves : ∀ ts : List (MTree S),
+    (mergeRound MTree.node ts).flatMap MTree.leaves = ts.flatMap MTree.leaves
+  | [] => by simp [mergeRound]
+  | [_] => by simp [mergeRound]
+  | a :: b :: rest => by
+    simp only [mergeRound, List.flatMap_cons, MTree.leaves, mergeRound_leaves rest, List.append_assoc]
+
+theorem mergeRounds_map_eval (merge : S → S → S) (fuel : Nat) (ts : List (MTree S)) :
+    mergeRounds merge fuel (ts.map (MTree.eval merge))
+      = (mergeRounds MTree.node fuel ts).map (MTree.eval merge) := by
+  induction fuel generalizing ts with
+  | zero => rfl
+  | succ fuel ih =>
+    simp only [mergeRounds, List.length_map]
+    split
+    · rfl
+    · rw [mergeRound_map_eval, ih]
+
+theorem mergeRounds_leaves (fuel : Nat) (ts : List (MTree S)) :
+    (mergeRounds MTree.node fuel ts).flatMap MTree.leaves = ts.flatMap MTree.leaves := by
+  induction fuel generalizing ts with
+  | zero => rfl
+  | succ fuel ih =>
+    simp only [mergeRounds]
+    split
+    · rfl
+    · rw [ih, mergeRound_leaves]
+
+theorem map_leaf_eval (merge : S → S → S) (l : List S) : (l.map MTree.leaf).map (MTree.eval merge) = l := by
+  induction l with
+  | nil => rfl
+  | cons a l ih => simp_all [MTree.eval]
+
+theorem map_leaf_leaves (l : List S) : (l.map MTree.leaf).flatMap MTree.leaves = l := by
+  induction l with
+  | nil => rfl
+  | cons a l ih => simp_all [MTree.leaves]
+
+theorem parallelMerging_tree (merge : S → S → S) (l : List S) (hl : l ≠ []) :
+    ∃ t : MTree S, t.leaves = l ∧ parallelMerging merge l = some (t.eval merge) := by
+  have hpos : 0 < l.length := List.length_pos_iff.mpr hl
+  have hlen := mergeRounds_length MTree.node l.length (l.map MTree.leaf)
+    (by simpa using hpos) (by simp)
+  obtain ⟨t, ht⟩ := List.length_eq_one_iff.mp hlen
+  refine ⟨t, ?_, ?_⟩
+  · have := mergeRounds_leaves l.length (l.map MTree.leaf)
+    rw [ht, map_leaf_leaves] at this
+    simpa using this
+  · have := mergeRounds_map_eval merge l.length (l.map MTree.leaf)
+    rw [ht, map_leaf_eval] at this
+    simp [parallelMerging, this]
+
+theorem merge_foldl (merge : S → S → S) (hassoc : ∀ a b c, merge (merge a b) c = merge a (merge b c))
+    (x : S) (r : List S) (b : S) : merge x (r.foldl merge b) = r.foldl merge (merge x b) := by
+  induction r generalizing b with
+  | nil => rfl
+  | cons c r ih => simp only [List.foldl_cons, ih, hassoc]
+
+theorem MTree.eval_foldl (merge : S → S → S) (hassoc : ∀ a b c, merge (merge a b) c = merge a (merge b c))
+    (t : MTree S) : ∃ a rest, t.leaves = a :: rest ∧ t.eval merge = rest.foldl merge a := by
+  induction t with
+  | leaf s => exact ⟨s, [], rfl, rfl⟩
+  | node l r ihl ihr =>
+    obtain ⟨a, r1, hl1, hl2⟩ := ihl
+    obtain ⟨b, r2, hr1, hr2⟩ := ihr
+    refine ⟨a, r1 ++ b :: r2, by simp [MTree.leaves, hl1, hr1], ?_⟩
+    simp only [MTree.eval, hl2, hr2, List.foldl_append, List.foldl_cons]
+    exact merge_foldl merge hassoc _ _ _
+
+theorem parallelMerging_assoc (merge : S → S → S) (hassoc : ∀ a b c, merge (merge a b) c = merge a (merge b c))
+    (a : S) (l : List S) : parallelMerging merge (a :: l) = some (l.foldl merge a) := by
+  obtain ⟨t, ht, hr⟩ := parallelMerging_tree merge (a :: l) (by simp)
+  obtain ⟨a', rest, h1, h2⟩ := MTree.eval_foldl merge hassoc t
+  rw [ht] at h1
+  cases h1
+  rw [hr, h2]
+
+/-! ### list facts for the protocol invariant -/
+
+/-- number of workers still running -/
+def running (l : List (WState I)) : Nat := (l.filter (fun w => !w.done)).length
+
+theorem running_set_false (l : List (WState I)) (w : Nat) (ws : WState I) (g : List I)
+    (hw : l[w]? = some ws) (hd : ws.done = false) :
+    running (l.set w { done := false, got := g }) = running l := by
+  induction l generalizing w with
+  | nil => simp at hw
+  | cons a l ih =>
+    cases w with
+    | zero =>
+      simp only [List.getElem?_cons_zero, Option.some.injEq] at hw
+      subst hw
+      simp [running, List.filter, hd]
+    | succ w =>
+      simp only [List.getElem?_cons_succ] at hw
+      have := ih w hw
+      simp only [running, List.set_cons_succ, List.filter_cons] at this ⊢
+      split <;> simp [this]
+
+theorem running_set_true (l : List (WState I)) (w : Nat) (ws : WState I) (g : List I)
+    (hw : l[w]? = some ws) (hd : ws.done = false) :
+    running (l.set w { done := true, got := g }) + 1 = running l := by
+  induction l generalizing w with
+  | nil => simp at hw
+  | cons a l ih =>
+    cases w with
+    | zero =>
+      simp only [List.getElem?_cons_zero, Option.some.injEq] at hw
+      subst hw
+      simp [running, List.filter, hd]
+    | succ w =>
+      simp only [List.getElem?_cons_succ] at hw
+      have := ih w hw
+      simp only [running, List.set_cons_succ, List.filter_cons] at this ⊢
+      split <;> simp [this] <;> omega
+
+theorem flatMap_got_set_append (l : List (WState I)) (w : Nat) (ws : WState I) (d : Bool) (x : I)
+    (hw : l[w]? = some ws) :
+    ((l.set w { done := d, got := ws.got ++ [x] }).flatMap (·.got)).Perm (l.flatMap (·.got) ++ [x]) := by
+  induction l generalizing w with
+  | nil => simp at hw
+  | cons a l ih =>
+    cases w with
+    | zero =>
+      simp only [List.getElem?_cons_zero, Option.some.injEq] at hw
+      subst hw
+      simp only [List.set_cons_zero, List.flatMap_cons, List.append_assoc]
+      exact List.Perm.append_left _ List.perm_append_comm
+    | succ w =>
+      simp only [List.getElem?_cons_succ] at hw
+      simp only [List.set_cons_succ, List.flatMap_cons, List.append_assoc]
+      exact List.Perm.append_left _ (ih w hw)
+
+theorem flatMap_got_set_same (l : List (WState I)) (w : Nat) (ws : WState I) (d : Bool)
+    (hw : l[w]? = some ws) :
+    (l.set w { done := d, got := ws.got }).flatMap (·.got) = l.flatMap (·.got) := by
+  induction l generalizing w with
+  | nil => simp at hw
+  | cons a l ih =>
+    cases w with
+    | zero =>
+      simp only [List.getElem?_cons_zero, Option.some.injEq] at hw
+      subst hw
+      simp
+    | succ w =>
+      simp only [List.getElem?_cons_succ] at hw
+      simp [ih w hw]
+
+theorem map_some_replicate_cons_some {its : List I} {k : Nat} {x : I} {q : List (Option I)}
+    (h : its.map some ++ List.replicate k none = some x :: q) :
+    ∃ its', its = x :: its' ∧ q = its'.map some ++ List.replicate k none := by
+  cases its with
+  | nil =>
+    cases k with
+    | zero => simp at h
+    | succ k => simp [List.replicate_succ] at h
+  | cons y its' =>
+    simp only [List.map_cons, List.cons_append, List.cons.injEq, Option.some.injEq] at h
+    exact ⟨its', by rw [h.1], h.2.symm⟩
+
+theorem map_some_replicate_cons_none {its : List I} {k : Nat} {q : List (Option I)}
+    (h : its.map some ++ List.replicate k none = none :: q) :
+    its = [] ∧ ∃ k', k = k' + 1 ∧ q = List.replicate k' none := by
+  cases its with
+  | nil =>
+    cases k with
+    | zero => simp at h
+    | succ k =>
+      simp only [List.map_nil, List.nil_append, List.replicate_succ, List.cons.injEq, true_and] at h
+      exact ⟨rfl, k, rfl, h.symm⟩
+  | cons y its' => simp at h
+
+/-! ### the protocol invariant -/
+
+structure PInv (items : List I) (n : Nat) (s : PState I) : Prop where
+  perm    : (s.processed ++ s.queued ++ s.todo).Perm items
+  len     : s.workers.length = n
+  pills   : s.pills + (s.queue.filter Option.isNone).length = running s.workers
+  shape   : ∃ (its : List I) (k : Nat), s.queue = its.map some ++ List.replicate k none ∧ ((0 < k ∨ s.pills < n) → s.todo = [])
+  drained : (∃ w ∈ s.workers, w.done = true) → s.queued = [] ∧ s.todo = []
+
+theorem PInv.init (items : List I) (n : Nat) : PInv items n (PState.init items n) := by
+  refine ⟨?_, ?_, ?_, ?_, ?_⟩
+  · have : (List.replicate n ({ done := false, got := [] } : WState I)).flatMap (·.got) = [] := by
+      induction n with
+      | zero => rfl
+      | succ n ih => simp [List.replicate_succ]
+    simp [PState.init, PState.processed, PState.queued, this]
+  · simp [PState.init]
+  · have : ∀ m : Nat, running (List.replicate m ({ done := false, got := [] } : WState I)) = m := by
+      intro m
+      simp [running]
+    simp [PState.init, this]
+  · exact ⟨[], 0, by simp [PState.init], by simp [PState.init]⟩
+  · rintro ⟨w, hw, hd⟩
+    simp only [PState.init, List.mem_replicate] at hw
+    rw [hw.2] at hd
+    cases hd
+
+theorem PInv.step {cap : Nat} {items : List I} {n : Nat} {s t : PState I}
+    (inv : PInv items n s) (h : PStep cap s t) : PInv items n t := by
+  obtain ⟨hperm, hlen, hpills, ⟨its, k, hq, htodo⟩, hdr⟩ := inv
+  cases h with
+  | putItem x rest h1 h2 =>
+    have hnd : ¬ ∃ w ∈ s.workers, w.done = true := by
+      intro hex; have := (hdr hex).2; rw [h1] at this; cases this
+    have hk : ¬ (0 < k ∨ s.pills < n) := by
+      intro hh; have := htodo hh; rw [h1] at this; cases this
+    have hk0 : k = 0 := by omega
+    refine ⟨?_, hlen, ?_, ?_, ?_⟩
+    · simp only [PState.processed, PState.queued, h1, List.filterMap_append, List.filterMap_cons,
+        List.filterMap_nil, id, List.append_assoc, List.cons_append, List.nil_append] at hperm ⊢
+      exact hperm
+    · simpa [List.filter_append] using hpills
+    · refine ⟨its ++ [x], 0, ?_, ?_⟩
+      · simp [hq, hk0]
+      · intro hh; exact absurd (Or.inr (hh.resolve_left (by omega))) hk
+    · intro hex; exact absurd hex hnd
+  | putPill p h1 h2 h3 =>
+    refine ⟨?_, hlen, ?_, ?_, ?_⟩
+    · simpa [PState.processed, PState.queued, List.filterMap_append] using hperm
+    · simp only [List.filter_append, List.length_append] at hpills ⊢
+      simp only [h2] at hpills
+      simp only [List.filter_cons, Option.isNone_none, if_true, List.filter_nil, List.length_cons,
+        List.length_nil]
+      omega
+    · refine ⟨its, k + 1, ?_, fun _ => h1⟩
+      simp [hq, List.replicate_succ', List.append_assoc]
+    · intro hex
+      have := hdr hex
+      simpa [PState.queued, List.filterMap_append] using this
+  | takeItem w x q ws h1 h2 h3 =>
+    rw [h1] at hq
+    obtain ⟨its', hits, hq'⟩ := map_some_replicate_cons_some hq.symm
+    have hnd : ¬ ∃ w ∈ s.workers, w.done = true := by
+      intro hex; have := (hdr hex).1; simp [PState.queued, h1] at this
+    refine ⟨?_, by simpa using hlen, ?_, ⟨its', k, hq', htodo⟩, ?_⟩
+    · have hp := flatMap_got_set_append s.workers w ws false x h2
+      simp only [PState.processed, PState.queued, h1, List.filterMap_cons, id] at hperm ⊢
+      refine List.Perm.trans ?_ hperm
+      refine List.Perm.append_right _ ?_
+      refine (List.Perm.append_right _ hp).trans ?_
+      simp
+    · rw [running_set_false _ _ _ _ h2 h3]
+      simpa [h1] using hpills
+    · rintro ⟨w', hw', hd'⟩
+      rcases List.mem_or_eq_of_mem_set hw' with hm | he
+      · exact absurd ⟨w', hm, hd'⟩ hnd
+      · rw [he] at hd'; cases hd'
+  | takePill w q ws h1 h2 h3 =>
+    rw [h1] at hq
+    obtain ⟨hits, k', hk', hq'⟩ := map_some_replicate_cons_none hq.symm
+    have ht : s.todo = [] := htodo (Or.inl (by omega))
+    refine ⟨?_, by simpa using hlen, ?_, ⟨[], k', by simp [hq'], fun _ => ht⟩, ?_⟩
+    · simp only [PState.processed, PState.queued, h1, List.filterMap_cons, id] at hperm ⊢
+      rw [flatMap_got_set_same _ _ _ _ h2]
+      exact hperm
+    · have := running_set_true s.workers w ws ws.got h2 h3
+      simp only [h1, List.filter_cons, Option.isNone_none, if_true, List.length_cons] at hpills
+      show s.pills + (q.filter Option.isNone).length = running (s.workers.set w { done := true, got := ws.got })
+      omega
+    · intro _
+      refine ⟨?_, ht⟩
+      show q.filterMap id = []
+      rw [hq']
+      clear hq' hk' hq
+      induction k' with
+      | zero => rfl
+      | succ k ih => simp [List.replicate_succ, ih]
+
+theorem PReach.inv {cap : Nat} {items : List I} {n : Nat} {s : PState I}
+    (R : PReach cap items n s) : PInv items n s := by
+  induction R with
+  | init => exact PInv.init items n
+  | step _ h ih => exact ih.step h
+
+theorem PReach.exactly_once {cap : Nat} {items : List I} {n : Nat} {s : PState I}
+    (R : PReach cap items n s) (hf : s.final) : s.processed.Perm items ∧ s.workers.length = n := by
+  have inv := R.inv
+  refine ⟨?_, inv.len⟩
+  have := inv.perm
+  simpa [PState.queued, hf.1, hf.2.2.1] using this
+
+theorem PReach.no_deadlock {cap : Nat} (hcap : 1 ≤ cap) {items : List I} {n : Nat} (hn : 1 ≤ n)
+    {s : PState I} (R : PReach cap items n s) (hnf : ¬ s.final) : ∃ t, PStep cap s t := by
+  obtain ⟨hperm, hlen, hpills, ⟨its, k, hq, htodo⟩, hdr⟩ := R.inv
+  cases hqueue : s.queue with
+  | nil =>
+    cases htd : s.todo with
+    | cons x rest => exact ⟨_, PStep.putItem s x rest htd (by simp [hqueue]; omega)⟩
+    | nil =>
+      cases hp : s.pills with
+      | succ p => exact ⟨_, PStep.putPill s p htd hp (by simp [hqueue]; omega)⟩
+      | zero =>
+        exfalso
+        apply hnf
+        refine ⟨htd, hp, hqueue, ?_⟩
+        simp only [hp, hqueue, List.filter_nil, List.length_nil, running] at hpills
+        have hnil := List.length_eq_zero_iff.mp hpills.symm
+        intro w hw
+        have := List.filter_eq_nil_iff.mp hnil w hw
+        simpa using this
+  | cons o q =>
+    cases o with
+    | some x =>
+      have hnd : ¬ ∃ w ∈ s.workers, w.done = true := by
+        intro hex; have := (hdr hex).1; simp [PState.queued, hqueue] at this
+      have h0 : 0 < s.workers.length := by omega
+      refine ⟨_, PStep.takeItem s 0 x q s.workers[0] hqueue (by simp) ?_⟩
+      cases hd : (s.workers[0]).done with
+      | false => rfl
+      | true => exact absurd ⟨_, List.getElem_mem h0, hd⟩ hnd
+    | none =>
+      simp only [hqueue, List.filter_cons, Option.isNone_none, if_true, List.length_cons, running] at hpills
+      have hpos : 0 < (s.workers.filter (fun w => !w.done)).length := by omega
+      obtain ⟨ws, hws⟩ := List.exists_mem_of_length_pos hpos
+      rw [List.mem_filter] at hws
+      obtain ⟨i, hi⟩ := List.mem_iff_getElem?.mp hws.1
+      exact ⟨_, PStep.takePill s i q ws hqueue hi (by simpa using hws.2)⟩
+
+/-! ### record counts and operations -/
+
+theorem workerRecords_append (cb : I → Outcome K) (a b : List I) :
+    workerRecords cb (a ++ b) = workerRecords cb a + workerRecords cb b := by
+  simp [workerRecords]
+
+theorem workerRecords_perm (cb : I → Outcome K) {a b : List I} (h : a.Perm b) :
+    workerRecords cb a = workerRecords cb b :=
+  (h.map _).sum_nat
+
+theorem workerRecords_workers (cb : I → Outcome K) (ws : List (WState I)) :
+    (ws.map fun w => workerRecords cb w.got).sum = workerRecords cb (ws.flatMap (·.got)) := by
+  induction ws with
+  | nil => rfl
+  | cons a l ih => simp [workerRecords_append, ih]
+
+theorem workerOps_workers (cb : I → Outcome K) (ws : List (WState I)) :
+    (ws.flatMap fun w => workerOps cb w.got) = workerOps cb (ws.flatMap (·.got)) := by
+  simp [workerOps, List.flatMap_assoc]
+
+theorem workerRecords_filter (cb : I → Outcome K) (got : List I) :
+    workerRecords cb got = ((got.filter fun x => (cb x).ret.isSome).map fun x => (cb x).ret.getD 0).sum := by
+  induction got with
+  | nil => rfl
+  | cons x l ih =>
+    simp only [workerRecords, List.map_cons, List.sum_cons, List.filter_cons] at ih ⊢
+    cases h : (cb x).ret with
+    | none => simpa [h] using ih
+    | some v => simpa [h] using ih
+
+/-- weight added for `k` by a list of operations -/
+def opsCount [DecidableEq K] (k : K) (ops : List (K × Nat)) : Nat :=
+  (ops.map fun kv => if kv.1 = k then kv.2 else 0).sum
+
+theorem trueCount_foldl [DecidableEq K] (k : K) (ops : List (K × Nat)) (h : Hist K) :
+    (ops.foldl (fun h kv => Hist.add h kv.1 kv.2) h).trueCount k = h.trueCount k + opsCount k ops := by
+  induction ops generalizing h with
+  | nil => simp [opsCount]
+  | cons kv ops ih =>
+    simp only [List.foldl_cons, ih, Hist.trueCount, opsCount, List.map_cons, List.sum_cons]
+    omega
+
+theorem trueCount_histOfOps [DecidableEq K] (k : K) (ops : List (K × Nat)) :
+    (histOfOps ops).trueCount k = opsCount k ops := by
+  simp [histOfOps, trueCount_foldl, Hist.trueCount]
+
+theorem opsCount_append [DecidableEq K] (k : K) (a b : List (K × Nat)) :
+    opsCount k (a ++ b) = opsCount k a + opsCount k b := by
+  simp [opsCount]
+
+theorem opsCount_perm [DecidableEq K] (k : K) {a b : List (K × Nat)} (h : a.Perm b) :
+    opsCount k a = opsCount k b :=
+  (h.map _).sum_nat
+
+theorem opsCount_workers [DecidableEq K] (k : K) (cb : I → Outcome K) (ws : List (WState I)) :
+    (ws.map fun w => (histOfOps (workerOps cb w.got)).trueCount k).sum
+      = opsCount k (workerOps cb (ws.flatMap (·.got))) := by
+  induction ws with
+  | nil => rfl
+  | cons a l ih =>
+    rw [List.map_cons, List.sum_cons, ih, trueCount_histOfOps]
+    simp [workerOps, opsCount_append]
+
+theorem hist_total [DecidableEq K] {cap : Nat} {items : List I} {n : Nat} {s : PState I}
+    (R : PReach cap items n s) (hf : s.final) (cb : I → Outcome K) (k : K) :
+    ((s.workers.map fun w => (histOfOps (workerOps cb w.got)).trueCount k).sum)
+      = (histOfOps (workerOps cb items)).trueCount k := by
+  rw [opsCount_workers, trueCount_histOfOps]
+  exact opsCount_perm k (List.Perm.flatMap_right _ (R.exactly_once hf).1)
+
 end Sketchnu
